@@ -76,6 +76,7 @@ structure World where
   connects : List ConnOutcome := []
   nConn : Nat := 0
   log : List (Nat × Ev) := []          -- (time, event)
+  cancelAt : Option Nat := none        -- the caller cancels the operation in progress at this time
 
 structure Lan where
   token : Option Bytes := none
@@ -140,7 +141,17 @@ def pump (s : S) (t : Nat) : S := pumpUntil s.w.pending.length s t
 inductive ReadRes where
   | packet (raw : Bytes)
   | timeout
+  | cancelled
   deriving DecidableEq, Repr
+
+/-- the caller's cancellation, if it is due not later than `limit` -/
+def cancelDue (s : S) (limit : Nat) : Option Nat :=
+  match s.w.cancelAt with
+  | some tc => if tc ≤ limit then some tc else none
+  | none => none
+
+/-- the cancellation has been delivered (as `CancelledError` into the pending read) -/
+def cancelFired (s : S) (tc : Nat) : S := { s with w := { s.w with now := max s.w.now tc, cancelAt := none } }
 
 def queueHead (s : S) : Option Bytes :=
   match s.l.conn with
@@ -149,7 +160,10 @@ def queueHead (s : S) : Option Bytes :=
 
 def popQueue (s : S) : S := softConn s (fun c => { c with queue := c.queue.drop 1 })
 
-/-- `await _read_queue(timeout)`: the head of the queue, or wait for the peer until the deadline -/
+/-- `await _read_queue(timeout)`: the head of the queue, or wait for the peer until the deadline; a
+    cancellation of the calling task that falls into the wait (before the next peer event) ends it.
+    (Cancellation is modelled at the read awaits only — not during the post-authentication sleep or
+    a hanging connect.) -/
 def awaitQueue : Nat → S → Nat → ReadRes × S
   | 0, s, deadline => (.timeout, setNow s deadline)
   | fuel + 1, s, deadline =>
@@ -157,8 +171,14 @@ def awaitQueue : Nat → S → Nat → ReadRes × S
     | some p => (.packet p, popQueue s)
     | none =>
       match nextDue s.w.pending deadline with
-      | none => (.timeout, setNow s deadline)
-      | some e => awaitQueue fuel (deliverDue s e) deadline
+      | none =>
+        match cancelDue s deadline with
+        | some tc => (.cancelled, cancelFired s tc)
+        | none => (.timeout, setNow s deadline)
+      | some e =>
+        match cancelDue s e.t with
+        | some tc => (.cancelled, cancelFired s tc)
+        | none => awaitQueue fuel (deliverDue s e) deadline
 
 /-- schedule the peer's reactions to the `idx`-th write on `cid` -/
 def react (rx : Reactions) (s : S) (cid idx : Nat) : S :=
@@ -289,6 +309,7 @@ def protoAuthenticate (p : Params) (rx : Reactions) (s : S) (token key : Option 
     | .ok s1 =>
       match awaitQueue (s1.w.pending.length + 1) s1 (s1.w.now + p.readTimeout) with
       | (.timeout, s2) => (.error .timeout, s2)
+      | (.cancelled, s2) => (.error .cancelled, s2)      -- CancelledError is not caught here nor in LAN.authenticate
       | (.packet raw, s2) => acceptReply p s2 ky raw
   | _, _ => (.error .auth, s)
 
@@ -352,6 +373,7 @@ def sendLoop (p : Params) (rx : Reactions) (frame : Bytes) : Nat → S → List 
       | (.timeout, s2) =>
         if n + 1 > 1 then sendLoop p rx frame n s2 acc
         else (.error .timeout, opDisconnect s2)
+      | (.cancelled, s2) => (.error .timeout, opDisconnect s2)   -- "Read cancelled. Disconnecting." → TimeoutError
       | (.packet raw, s2) =>
         match decodeRead s2 raw with
         | .error .protocol => (.error .protocol, opDisconnect s2)
@@ -412,6 +434,8 @@ inductive Op where
   | authenticate (token key : Bytes)
   | advance (ms : Nat)
   | setMaxLifetime (ms : Option Nat)
+  | sendCancelled (frame : Bytes) (afterMs : Nat)          -- a send whose task is cancelled `afterMs` later
+  | authCancelled (token key : Bytes) (afterMs : Nat)
   deriving DecidableEq, Repr
 
 inductive Outcome where
@@ -429,6 +453,13 @@ def outcomeOfAuth : R Unit × S → Outcome × S
   | (.error e, s1) => (.failed e, s1)
 
 def setLifetime (s : S) (m : Option Nat) : S := { s with l := { s.l with maxLifetime := m } }
+def armCancel (s : S) (ms : Nat) : S := { s with w := { s.w with cancelAt := some (s.w.now + ms) } }
+def disarmCancel (s : S) : S := { s with w := { s.w with cancelAt := none } }
+
+/-- the caller waited `until` before cancelling (and collecting the result): the cancellation is
+    disarmed and the clock is at least there -/
+def outcomeDisarm (untilT : Nat) : Outcome × S → Outcome × S
+  | (o, s1) => (o, pump (disarmCancel s1) untilT)
 
 def step (p : Params) (rx : Reactions) (s : S) : Op → Outcome × S
   | .send f => outcomeOfSend (lanSend p rx s f Generated.lanRetries)
@@ -436,6 +467,9 @@ def step (p : Params) (rx : Reactions) (s : S) : Op → Outcome × S
   | .authenticate t k => outcomeOfAuth (lanAuthenticate p rx s (some t) (some k) Generated.lanRetries)
   | .advance ms => (.done, pump s (s.w.now + ms))
   | .setMaxLifetime m => (.done, setLifetime s m)
+  | .sendCancelled f ms => outcomeDisarm (s.w.now + ms) (outcomeOfSend (lanSend p rx (armCancel s ms) f Generated.lanRetries))
+  | .authCancelled t k ms =>
+    outcomeDisarm (s.w.now + ms) (outcomeOfAuth (lanAuthenticate p rx (armCancel s ms) (some t) (some k) Generated.lanRetries))
 
 def run (p : Params) (rx : Reactions) : S → List Op → List Outcome × S
   | s, [] => ([], s)
